@@ -14,6 +14,8 @@ let show_call (c : Walk.vcall) : string =
 let () = Modes.register "walk" (fun records mismatches ->
   let pages : (coq_N * Page.page) list ref = ref [] in
   let got : string list ref = ref [] in
+  let expect : (coq_N * Page.page) list option ref = ref None in   (* the model's pages after the previous walk of the same heap *)
+  let after_checked = ref 0 in
   let walks = ref 0 and stopped = ref 0 and ncalls = ref 0 and npages = ref 0 and empty = ref 0 in
   let mism fmt = Printf.ksprintf (fun s -> incr mismatches; if !mismatches <= 30 then print_endline ("MISMATCH " ^ s)) fmt in
   (try
@@ -28,12 +30,24 @@ let () = Modes.register "walk" (fun records mismatches ->
            if not (Page.page_inv_b p) then mism "walk run %d: page invariant violated on %s %s" run pg (Mode_page.show p);
            pages := (n_of_string pg, p) :: !pages
          | _ -> mism "walk unparsable page dump: %s" line)
+      | "S" :: _ -> expect := None     (* another heap, or allocator activity between two walks *)
       | "VC" :: _ :: rest -> got := String.concat " " rest :: !got
       | "VR" :: run :: vb :: k :: res :: _ ->
         incr records; incr walks;
         let ps = L.rev !pages and calls = L.rev !got in
         pages := []; got := [];
         if ps = [] then incr empty;
+        (match !expect with
+         | Some ex ->
+           incr after_checked;
+           if L.length ex <> L.length ps || not (L.for_all2 (fun (a, p) (b, q) -> a = b && Mode_page.same p q) ex ps) then begin
+             let bad = try L.find (fun ((a, p), (b, q)) -> not (a = b && Mode_page.same p q)) (L.combine ex ps) with _ -> L.hd (L.combine ex ps) in
+             let ((a, p), (_, q)) = bad in
+             mism "walk run %s: the pages before this walk are not what Model/Walk.v:walk_pages_after gives for the previous walk, e.g. page %s model %s code %s"
+               run (string_of_n a) (Mode_page.show p) (Mode_page.show q)
+           end
+         | None -> ());
+        expect := Some (Walk.pages_after_stop_at (vb = "1") (n_of_string k) ps);
         let (tr, r) = Walk.walk_stop_at (vb = "1") (n_of_string k) ps in
         let want = L.map show_call tr in
         ncalls := !ncalls + L.length calls;
@@ -51,4 +65,4 @@ let () = Modes.register "walk" (fun records mismatches ->
       | _ -> ()
     done
   with End_of_file -> ());
-  Printf.printf "STATS walk walks=%d stopped=%d empty_heaps=%d visitor_calls=%d page_dumps=%d\n" !walks !stopped !empty !ncalls !npages)
+  Printf.printf "STATS walk walks=%d stopped=%d empty_heaps=%d visitor_calls=%d page_dumps=%d pages_after_checked=%d\n" !walks !stopped !empty !ncalls !npages !after_checked)
